@@ -71,6 +71,27 @@ def lateWrites : List Ev → Nat
 
 def resName (ok : Bool) : String := if ok then "ok" else "cancelled"
 
+/-- A writer that fails: the call ends with the writer's I/O error at `write` event number `j` (0-based; every
+`write_all` is followed by `?`), no check and no report is reached after it. Number of reports made until then.
+Only the first (`j = 0`) and the last (`j = writes tr - 1`) write are asked for: which bytes a `write` event
+carries is not modelled, but the first byte of the output belongs to the first and the last byte to the last. -/
+def reportsBeforeWrite : Nat → List Ev → Nat
+  | _, [] => 0
+  | j, .report _ :: t => reportsBeforeWrite j t + 1
+  | j, .check :: t => reportsBeforeWrite j t
+  | 0, .write :: _ => 0
+  | j + 1, .write :: t => reportsBeforeWrite j t
+
+/-- `ioA/B` → `(A, B)` -/
+def parseIo (s : String) : Option (Nat × Nat) :=
+  if !s.startsWith "io" then none else
+  match (s.drop 2).toString.splitOn "/" with
+  | [a, b] => (do
+      let x ← nat? a
+      let y ← nat? b
+      if y = 0 ∨ x > y ∨ y > 65536 then none else pure (x, y))
+  | _ => none
+
 def sweepKs (n : Nat) : List Nat :=
   if n ≤ 96 then List.range n else (List.range 96).map (fun i => i * (n - 1) / 95)
 
@@ -132,13 +153,26 @@ def runC17 (line : String) : String :=
             if det then s!"ok n={n} late={lateWrites tr} seq={fmtRats full.reports}"
             else
               s!"ok n={n} late={lateWrites tr} last={fmtRats (full.reports.drop (n - 1))} dif={fmtRats (sortRats (diffs (0 :: full.reports)))}"
-          | "pre" =>
+          | "pre" | "pres" =>
+            -- `pres`: the retry borrows the same `Progress` value; a `Progress` holds no state of a call
             let o := exec none tr true 0
             s!"{resName o.ok} n={o.reports.length} written={o.writes} retry={resName full.ok} n2={n}"
+          | "iosweep" =>
+            if writes tr = 0 then "no-output" else
+            s!"iosweep ok n={n} io=all nfirst={reportsBeforeWrite 0 tr} nlast={reportsBeforeWrite (writes tr - 1) tr}"
           | "sweep" =>
             let rs := (sweepKs n).map (fun k => (exec (some k) tr false 0).ok)
             s!"sweep ok n={n} cancelled={(rs.filter (!·)).length} ok={(rs.filter (·)).length}"
           | k =>
+            if k.startsWith "io" then
+              match parseIo k with
+              | none => "bad-case"
+              | some (a, b) =>
+                if writes tr = 0 then "no-output"
+                else if a = 0 then s!"err:Io n={reportsBeforeWrite 0 tr}"
+                else if a = b then s!"err:Io n={reportsBeforeWrite (writes tr - 1) tr}"
+                else "err:Io"
+            else
             if !k.startsWith "k" then "bad-case" else
             match nat? (k.drop 1).toString with
             | none => "bad-case"
